@@ -143,7 +143,7 @@ def run(ctx):
                     if other in g and body(tag) is not None and body(other) is not None and body(tag) != body(other):
                         ctx.violation("`as = \"U\"` does not yield the binding the item would have if its field's type were U",
                                       {"items": case_items, "group": gname, "position": tag[3:]}, {"as": g[tag][1]["decl"], "field_of_type_U": g[other][1]["decl"]})
-                    if other in g and sorted(map(tuple, g[tag][1].get("deps", []))) != sorted(map(tuple, g[other][1].get("deps", []))):
+                    if other in g and sorted(set(map(tuple, g[tag][1].get("deps", [])))) != sorted(set(map(tuple, g[other][1].get("deps", [])))):
                         ctx.violation("`as = \"U\"` does not record the dependencies the item would have if its field's type were U",
                                       {"items": case_items, "group": gname, "position": tag[3:]}, {"as": g[tag][1].get("deps"), "field_of_type_U": g[other][1].get("deps")})
             # (i'') every name a presentation mentions is among its recorded dependencies (inline / flatten keep the inner type's dependencies)
